@@ -3188,6 +3188,16 @@ where
                     }
                 }
             }
+            // the provided `Iterator` methods of the table iterator (`nth`, `skip`, `step_by`, `last`,
+            // `count`, `size_hint`) agree with plain `next()` iteration
+            {
+                let mut fork = rng.fork();
+                match guarded(|| iter_forms(&mut || model_f.symbol_table(), &|(s, c, p)| format!("{:x}:{:x}:{:x}", key(s), to_u128(c), to_u128(p.get())), &mut fork)) {
+                    Ok(Ok(_)) => {}
+                    Ok(Err(t)) => fails.push(("C05", format!("symbol_table(): {}", t))),
+                    Err(class) => fails.push(("C05", format!("symbol_table(): an Iterator adaptor method panicked ({})", class))),
+                }
+            }
             match guarded(|| model_f.to_generic_encoder_model()) {
                 Err(class) => {
                     let what = format!("to_generic_encoder_model() panicked ({}) although every direct query succeeds", class);
